@@ -322,6 +322,7 @@ func (c *Ctx) WriteResult(path string) error {
 func NormPath(p string) string {
 	var sb strings.Builder
 	in := false
+	last := rune(0)
 	for _, r := range p {
 		switch {
 		case r == '[':
@@ -330,7 +331,17 @@ func NormPath(p string) string {
 		case r == ']':
 			in = false
 		case !in:
+			if r >= '0' && r <= '9' {
+				r = '#'
+				if last == '#' {
+					continue
+				}
+			}
+			if r == ' ' {
+				r = '_'
+			}
 			sb.WriteRune(r)
+			last = r
 		}
 	}
 	return sb.String()
